@@ -67,8 +67,10 @@ def strip_cv(s):
         changed = False
         for pre in ('const ', 'volatile ', 'struct ', 'class ', 'typename '):
             if s.startswith(pre): s = s[len(pre):].strip(); changed = True; const = const or pre == 'const '
-        for suf in (' const', ' volatile'):
-            if s.endswith(suf): s = s[:-len(suf)].strip(); changed = True; const = const or suf == ' const'
+        for suf in (' const', ' volatile', '*const', '*volatile'):
+            if s.endswith(suf):
+                keep = '*' if suf.startswith('*') else ''
+                s = (s[:-len(suf)] + keep).strip(); changed = True; const = const or 'const' in suf
     return s, const
 
 
